@@ -196,7 +196,10 @@ def run(ctx):
     if replay:
         cases = [json.load(open(replay))["replay"]["case"]]
     else:
-        cases = [c["case"] for c in core.corpus_cases(ID)] + [gen_pair_case(ctx.rng) for _ in range(ctx.n(7, 300))]
+        corpus = [c["case"] for c in core.corpus_cases(ID)]
+        for c in corpus:
+            c["_corpus"] = True
+        cases = corpus + [gen_pair_case(ctx.rng) for _ in range(ctx.n(7, 300))]
         # a finished priority that is given slack, and a later priority that uses it
         for fn, tmin in (("y", 11.0), ("z", 19.5)):
             cases.append({"k": "pair", "times": [0, 1, 2], "E": 1, "p": [0], "variant": "multi", "options": {"fix_minimized_values": False},
@@ -209,6 +212,12 @@ def run(ctx):
     for c in cases:
         kinds = ctx.rng.sample(["single_vs_keep_soft", "caching_qp", "twice", "expand", "map_mode"], ctx.n(2, 5)) if not replay else \
             ["single_vs_keep_soft", "caching_qp", "twice", "expand", "map_mode"]
+        if c.pop("_corpus", False):
+            # corpus cases are known to solve in every formulation on the unchanged tree: all pairs, and a
+            # formulation that no longer solves is a disagreement as well
+            kinds, fixed_case = ["single_vs_keep_soft", "caching_qp", "twice", "expand", "map_mode"], True
+        else:
+            fixed_case = False
         if c.get("options_by_priority") and "single_vs_keep_soft" not in kinds:
             kinds = ["single_vs_keep_soft"] + kinds[:1]
         for kind in kinds:
@@ -256,6 +265,9 @@ def run(ctx):
                               nprio >= 2)
                 if ref is None or o is None or ok is not True or ok2 is not True:
                     ctx.count("pair_unsolved")
+                    if fixed_case and ok is True and ok2 is not True:
+                        ctx.violation("pair/" + name.split("/")[0] + "-unsolved", {"case": c, "pair": name, "reference": ref, "other": o},
+                                      what="equivalent formulations disagree (%s): one solves every priority (%s), the other stops (%s)" % (name, ref, o))
                     continue
                 if not close_lists(ref, o):
                     ctx.violation("pair/" + name.split("/")[0], {"case": c, "pair": name, "reference": ref, "other": o},
